@@ -547,27 +547,34 @@ class RemoteWorker(Worker, metaclass=RemoteWorkerMeta):
             self._child.start()
             self._dead = False
 
-            # Clean up things which are only needed in the backend
-            self._payload = None
+            try:
+                # Clean up things which are only needed in the backend
+                self._payload = None
 
-            self._startup_sync = threading.Event()
-            self._ctrl_thread_rem = threading.Thread(target=self._ctrl_fn_remote, name=f'{self._name} (remote control thread)')
-            self._ctrl_thread_rem.start()
-            self._startup_sync.wait()
+                self._startup_sync = threading.Event()
+                self._ctrl_thread_rem = threading.Thread(target=self._ctrl_fn_remote, name=f'{self._name} (remote control thread)')
+                self._ctrl_thread_rem.start()
+                self._startup_sync.wait()
 
-            # Receiving runtime info is a signal for us that everything is ok
-            ready = mp.connection.wait([self._comms.parent_end, self._child.sentinel])
-            if self._comms.parent_end not in ready:
-                # the child has died before reporting anything (e.g. the client was already gone when it started),
-                # waiting for the info would block the server forever
-                logger.debug('Backend child died during start-up')
-                self._dead = True
-                raise ConnectionClosedError()
-            runtime_info = self._comms.parent_end.recv()
-            self._host, self._pid, self._tid, self._ident = runtime_info
-            send_msg(self._ctrl_sock, runtime_info, comment='ctrl: runtime info')
-            self._comms.parent_end.send(True)
-            self._comms.parent_end.close()
+                # Receiving runtime info is a signal for us that everything is ok
+                ready = mp.connection.wait([self._comms.parent_end, self._child.sentinel])
+                if self._comms.parent_end not in ready:
+                    # the child has died before reporting anything (e.g. the client was already gone when it started),
+                    # waiting for the info would block the server forever
+                    logger.debug('Backend child died during start-up')
+                    self._dead = True
+                    raise ConnectionClosedError()
+                runtime_info = self._comms.parent_end.recv()
+                self._host, self._pid, self._tid, self._ident = runtime_info
+                send_msg(self._ctrl_sock, runtime_info, comment='ctrl: runtime info')
+                self._comms.parent_end.send(True)
+                self._comms.parent_end.close()
+            except BaseException:
+                # the start-up could not be completed (the client is gone, the server is being terminated...),
+                # a half-started child which nobody knows about must not be left behind
+                if self._child.is_alive():
+                    self._child.kill()
+                raise
         elif self._remote_side:
             assert self._remote_side
             assert not self._is_backend
